@@ -29,7 +29,7 @@ def worker(k):
         if r.returncode!=0:
             with lock: print(sid,prop,'PATCH DOES NOT APPLY',flush=True)
             continue
-        r=subprocess.run(['/verif/bin/govc','-repo',wt,'-verif',vd,'-prop',prop,'-tier','quick','-j','5'],capture_output=True,text=True,env=env)
+        r=subprocess.run([os.environ.get('GOVC','/verif/bin/govc'),'-repo',wt,'-verif',vd,'-prop',prop,'-tier','quick','-j','5'],capture_output=True,text=True,env=env)
         out=r.stdout+r.stderr
         out=out.replace(vd+'/replays','/verif/replays')
         keep=[l[:300] for l in out.split('\n') if re.match(r'^(FAILED|VIOLATION|UNDECIDED|NOTE: .*dropped|property=)',l)]
